@@ -24,7 +24,7 @@ REASONS.update({49: "inner-tick-outside-its-outer-tick-or-at-another-time", 45: 
 
 def main(tier, seed):
     ck = Check(PID, tier, seed, "Props.C04", ["Model/Master.v", "Model/Ticker.v", "Oracle/MasterOracle.v", "Oracle/SimOracle.v",
-                                              "Proofs/MasterP.v", "Model/Sim.v", "Proofs/SimP.v", "Proofs/LogP.v", "Props/C04.v"])
+                                              "Proofs/MasterP.v", "Model/Sim.v", "Proofs/SimP.v", "Proofs/LogP.v", "Model/Alert.v", "Proofs/AlertP.v", "Props/C04.v"])
     ck.build_and_audit()
     rng = random.Random(seed)
     mcases, mbad = c07.m_part(ck, tier, rng)
